@@ -811,6 +811,12 @@ func (w *world) execAct(sv *hsvc, a hx.T) {
 			app.Request(sv.NodeService, r, p, &messages.TestHello{I: int32(tag)},
 				w.callback(sv, tag, hx.Terms(a.Args[0])))
 		}
+	case "ARep":
+		// bulk: the action, n times
+		inner := a.Term(1)
+		for i := int64(0); i < a.Int(0); i++ {
+			w.execAct(sv, inner)
+		}
 	case "ANotifyNR":
 		r, p := w.noTarget()
 		app.Notify(sv.NodeService, r, p, &messages.TestHello{I: -1})
